@@ -239,7 +239,7 @@ func runC19(c *Ctx) {
 		}
 		// (a): closes exist → send and close must hold the registry mutex in their own goroutine
 		fc := newFnCFG(s.b.Body, info)
-		held := fc.heldAt(s.node)
+		held := normHeld(fc.heldAt(s.node), false)
 		hasMu := false
 		for k := range held {
 			if strings.HasSuffix(k, "."+ri.MuFld.Name()) {
@@ -256,7 +256,7 @@ func runC19(c *Ctx) {
 	for i, cl := range closes {
 		key := fmt.Sprintf("%s|close#%d in %s", regKey, i+1, funcKey(p, cl.b.Decl))
 		fc := newFnCFG(cl.b.Body, info)
-		held := fc.heldAt(cl.node)
+		held := normHeld(fc.heldAt(cl.node), true)
 		hasMu := false
 		for k := range held {
 			if strings.HasSuffix(k, "."+ri.MuFld.Name()) {
@@ -277,7 +277,7 @@ func runC19(c *Ctx) {
 			nb++
 			key := funcKey(p, b.Decl) + "|broadcast-loop"
 			fc := newFnCFG(b.Body, info)
-			held := fc.heldAt(rs)
+			held := normHeld(fc.heldAt(rs), false)
 			c.check(held[muKeyOf(rs.X)], "C19.R3", key+"|reads-registry-under-lock", c.pos(rs.Pos()), "registry is iterated under its mutex "+heldList(held),
 				"the broadcast loop iterates the client registry without holding its mutex "+heldList(held))
 			// R2: no blocking channel op directly in the loop
@@ -349,7 +349,7 @@ func runC19(c *Ctx) {
 			return true
 		})
 		holdsMu := func(n ast.Node) bool {
-			for k := range fc.heldAt(n) {
+			for k := range normHeld(fc.heldAt(n), false) {
 				if strings.HasSuffix(k, "."+ri.MuFld.Name()) {
 					return true
 				}
@@ -450,7 +450,7 @@ func runC19(c *Ctx) {
 				for _, l := range n.Lhs {
 					if ix, ok := l.(*ast.IndexExpr); ok && isRegMap(ix.X) {
 						nstore++
-						held := fc.heldAt(n)
+						held := normHeld(fc.heldAt(n), true)
 						c.check(held[muKeyOf(ix.X)], "C19.R3", funcKey(p, b.Decl)+"|register-under-lock", c.pos(n.Pos()), "client registered under the mutex",
 							"a client is registered without holding the registry mutex "+heldList(held)+": concurrent map write with the broadcaster")
 					}
@@ -458,9 +458,9 @@ func runC19(c *Ctx) {
 			case *ast.CallExpr:
 				if id, ok := n.Fun.(*ast.Ident); ok && id.Name == "delete" && len(n.Args) == 2 && isRegMap(n.Args[0]) {
 					ndel++
-					held := fc.heldAt(n)
+					held := normHeld(fc.heldAt(n), true)
 					c.check(held[muKeyOf(n.Args[0])], "C19.R3", funcKey(p, b.Decl)+"|unregister-under-lock", c.pos(n.Pos()), "client removed under the mutex",
-						"a client is removed without holding the registry mutex "+heldList(held))
+						"a client is removed from the registry map without holding the registry mutex exclusively "+heldList(held)+" (a read lock does not exclude other writers): two clients disconnecting at the same moment write the map concurrently — fatal error: concurrent map writes, which kills the watch process")
 					// must be in a deferred closure of the handler
 					deferred := false
 					for _, dc := range deferredCalls(b.Decl.Body) {
